@@ -550,8 +550,21 @@ func ArmIO(on bool) { ioArmed = on }
 //go:norace
 func IOCount() uint64 { return ioCtr }
 
+// SetIOOnly makes I/O points call the hook although the gates and the
+// simulated clock stay in pass-through mode (httpsim: request handlers yield
+// to the controller at their file operations, the manager runs freely).
+//
+//go:norace
+func SetIOOnly(on bool) { ioOnly = on }
+
+var ioOnly bool
+
 //go:norace
 func IOPoint(site string) {
+	if ioOnly && ioHook != nil {
+		ioHook(site, 0)
+		return
+	}
 	if !active {
 		return
 	}
